@@ -28,6 +28,7 @@ import (
 	"github.com/spq/pkappa2/internal/index/streams"
 	"github.com/spq/pkappa2/internal/query"
 	"github.com/spq/pkappa2/internal/tools"
+	"github.com/spq/pkappa2/internal/tools/bitmask"
 )
 
 type c02Stream struct {
@@ -369,6 +370,56 @@ func (q c02Tag) eval(s *c02Stream, r time.Time) bool {
 		return q.T.Def.eval(s, r)
 	}
 	return q.T.Matches[s.ID]
+}
+
+// a number of the stream compared with the same kind of number of the streams a sub-query selects:
+// "@s:<Sub> ... cport:@s:sport@" - some stream selected by Sub has this stream's client port as its server port
+type c02SubRef struct {
+	Key, SubKey string
+	Mode        int   // 0 equal, 1 at most, 2 at least
+	Off         int64 // the sub-query stream's value minus Off
+	Sub         c02Q
+	pop         map[uint64]*c02Stream
+}
+
+func c02NumOf(s *c02Stream, key string) int64 {
+	switch key {
+	case "cport":
+		return int64(s.cPort)
+	case "sport":
+		return int64(s.sPort)
+	case "cbytes":
+		return int64(len(s.cData))
+	case "sbytes":
+		return int64(len(s.sData))
+	}
+	panic(key)
+}
+func (q c02SubRef) str() string {
+	v := "@s:" + q.SubKey + "@"
+	if q.Off != 0 {
+		v += fmt.Sprintf("-%d", q.Off)
+	}
+	switch q.Mode {
+	case 1:
+		v = ":" + v
+	case 2:
+		v += ":"
+	}
+	return q.Key + ":" + v
+}
+func (q c02SubRef) eval(m *c02Stream, ref time.Time) bool {
+	mv := c02NumOf(m, q.Key)
+	for _, s := range q.pop {
+		if !q.Sub.eval(s, ref) {
+			continue
+		}
+		sv := c02NumOf(s, q.SubKey) - q.Off
+		if q.Mode == 0 && mv == sv || q.Mode == 1 && mv <= sv || q.Mode == 2 && mv >= sv {
+			return true
+		}
+	}
+	return false
 }
 
 type c02And struct{ A, B c02Q }
@@ -861,6 +912,40 @@ func TestC02Standin(t *testing.T) {
 				// a conjunct the index can answer from a lookup table (exercises the lookup-driven scans)
 				ast = c02And{c02Num{"id", genRanges(rng, []int64{0, 1, 2, 3, 5, 8})}, ast}
 			}
+			// a restriction to a set of stream ids
+			var restrict *bitmask.LongBitmask
+			var restrictSet map[uint64]bool
+			restrictDesc := ""
+			if rng.Intn(4) == 0 {
+				restrict, restrictSet = &bitmask.LongBitmask{}, map[uint64]bool{}
+				for id := uint64(0); id < uint64(maxStreams)+2; id++ {
+					if rng.Intn(2) == 0 {
+						restrict.Set(uint(id))
+						restrictSet[id] = true
+					}
+				}
+				restrictDesc = fmt.Sprintf(" restricted to ids %v", keys(restrictSet))
+			}
+			// a sub-query and a filter that compares with its streams (not with tags or sequences)
+			subStr := ""
+			if os.Getenv("C02_TAGS") == "" && os.Getenv("C02_THEN") == "" && rng.Intn(4) == 0 {
+				nk := []string{"cport", "sport", "cbytes", "sbytes"}
+				ref := c02SubRef{Key: nk[rng.Intn(4)], Mode: rng.Intn(3), pop: visible}
+				ref.SubKey = ref.Key
+				if rng.Intn(3) == 0 {
+					ref.SubKey = nk[rng.Intn(4)]
+				}
+				if rng.Intn(4) == 0 {
+					ref.Off = []int64{1, 3, 363, 6846}[rng.Intn(4)]
+				}
+				if rng.Intn(2) == 0 {
+					ref.Sub = c02Num{[]string{"cport", "sport"}[rng.Intn(2)], genRanges(rng, []int64{80, 443, 1234, 8080, 31337})}
+				} else {
+					ref.Sub = c02Num{"id", genRanges(rng, []int64{0, 1, 2, 3, 5, 8})}
+				}
+				ast = c02And{ref, ast}
+				subStr = "@s:" + ref.Sub.str() + " "
+			}
 			var sorting []c02Sort
 			sortStr := ""
 			if rng.Intn(3) != 0 {
@@ -883,8 +968,8 @@ func TestC02Standin(t *testing.T) {
 			if limit != 0 && rng.Intn(3) == 0 {
 				skip = limit * uint(rng.Intn(3))
 			}
-			qs := ast.str() + sortStr
-			input := fmt.Sprintf("query=%q limit=%d skip=%d indexes=%d%s population=%s", qs, limit, skip, nIdx, tagDesc, pop)
+			qs := subStr + ast.str() + sortStr
+			input := fmt.Sprintf("query=%q limit=%d skip=%d%s indexes=%d%s population=%s", qs, limit, skip, restrictDesc, nIdx, tagDesc, pop)
 			if tr := os.Getenv("C02_TRACE"); tr != "" {
 				os.WriteFile(tr, []byte(input), 0o644)
 			}
@@ -894,7 +979,7 @@ func TestC02Standin(t *testing.T) {
 				continue
 			}
 			evals++
-			res, more, _, err := SearchStreams(context.Background(), readers, nil, q.ReferenceTime, q.Conditions, q.Grouping, q.Sorting, limit, skip, tagDetails, map[string]ConverterAccess{}, false)
+			res, more, _, err := SearchStreams(context.Background(), readers, restrict, q.ReferenceTime, q.Conditions, q.Grouping, q.Sorting, limit, skip, tagDetails, map[string]ConverterAccess{}, false)
 			if err != nil {
 				fail("search-error", input, err.Error())
 				continue
@@ -902,7 +987,7 @@ func TestC02Standin(t *testing.T) {
 			// what the query denotes on the visible streams
 			var want []*c02Stream
 			for _, v := range visible {
-				if ast.eval(v, q.ReferenceTime) {
+				if ast.eval(v, q.ReferenceTime) && (restrictSet == nil || restrictSet[v.ID]) {
 					want = append(want, v)
 				}
 			}
@@ -943,7 +1028,7 @@ func TestC02Standin(t *testing.T) {
 				case seen[s.StreamID]:
 					fail("listed-twice", input, detail)
 					bad = true
-				case !ok || !ast.eval(v, q.ReferenceTime):
+				case !ok || !ast.eval(v, q.ReferenceTime) || restrictSet != nil && !restrictSet[s.StreamID]:
 					fail("not-denoted", input, detail)
 					bad = true
 				case s.ClientBytes != uint64(len(v.cData)) || s.ServerBytes != uint64(len(v.sData)) || s.ClientPort != v.cPort || s.ServerPort != v.sPort:
